@@ -49,6 +49,7 @@ def run(ctx: Ctx) -> None:
     rule_distance_whole_state(ctx)
     numeric.rule_hermitian_args(ctx, DMF, ["fidelity", "trace_distance"])
     numeric.rule_spectral_sqrt(ctx)
+    numeric.rule_spectra_paired(ctx, [DMF])
     # the cross-representation clause goes through convert_representation('dm') -> stabilizer_to_density (known finding shared with C08)
     from .c08 import rule_density_signs
     rule_density_signs(ctx)
@@ -238,6 +239,7 @@ def rule_distance_whole_state(ctx: Ctx) -> None:
 
 
 KNOCKOUTS = [
+    Knockout("fidelity-commuting-shortcut-pairs-sorted-spectra", DMF, sub_once("    else:\n        # if both are mixed, use the definition\n", "    elif np.allclose(rho @ sigma, sigma @ rho):\n        p_vals, _ = eigh(rho)\n        q_vals, _ = eigh(sigma)\n        return np.sum(np.sqrt(np.maximum(p_vals, 0) * np.maximum(q_vals, 0))) ** 2\n    else:\n        # if both are mixed, use the definition\n"), "num.spectra-paired", "paired by position"),
     Knockout("branches-selected-not-weighted-by-fidelity", "graphiq/metrics.py", sub_once("[p_i * sfm.fidelity(tableau, t_i) for p_i, t_i in rep_data.mixture]", "[p_i for p_i, t_i in rep_data.mixture if t_i == tableau]"), "weight.fidelity", "branch contribution"),
     Knockout("infidelity-returns-fidelity", "graphiq/metrics.py", sub_once("            self.log.append(1 - fid)\n\n        return 1 - fid", "            self.log.append(1 - fid)\n\n        return fid"), "metric.value", "returns / logs"),
     Knockout("infidelity-converts-to-wrong-rep", "graphiq/metrics.py", sub_once('                tmp_state.convert_representation("s")\n                rep_data = tmp_state.rep_data', '                tmp_state.convert_representation("dm")\n                rep_data = tmp_state.rep_data'), "metric.value", "converted"),
